@@ -34,7 +34,8 @@ EXPLANATION = (
     "dereferenced untested in any tool-reachable traversal, and in the front end no local that receives the result of a "
     "function that may return NULL (least fixed point over `return`) is dereferenced while it may still be NULL. (E2t) every strncpy into a fixed char array with a constant size is followed, on every path to the next use of the array, by a store of 0 at an index not above that size - or cannot need one (literal source shorter than the size; zero-initialised storage whose tail is never written; a constructor-established terminator beyond the size; identifier sources under the identifier-length assumption). Not decided: heap-block destinations beyond two idioms (listed as heap_not_decided), parser "
     "stack growth, generated lexer internals, hash.c internals, bounded time, signed overflow."
-    " (R2, inter-procedural) a pointer handed to a callee that keeps it - least fixed point over the call graph of: the parameter is assigned to a global, a member or an array element that outlives the call, or passed on to such a parameter - is not freed while that location can still hold it (a self-test subject under scv/selftest/c06 keeps the rule exercised: it has no instance on the unchanged tree). (R6N) a local pointer is not dereferenced where every definition that reaches the dereference is the null constant (variables whose address is taken are not decided).")
+    " (R2, inter-procedural) a pointer handed to a callee that keeps it - least fixed point over the call graph of: the parameter is assigned to a global, a member or an array element that outlives the call, or passed on to such a parameter - is not freed while that location can still hold it (a self-test subject under scv/selftest/c06 keeps the rule exercised: it has no instance on the unchanged tree). (R6N) a local pointer is not dereferenced where every definition that reaches the dereference is the null constant (variables whose address is taken are not decided)."
+    " (R5c) every loop that follows the head / base links of the type graph (links the parser builds from names, so an invalid schema can make them cyclic) is in a frozen table with the reason why it ends; for walks that run during resolution the reason is re-verified: the loop condition tests the resolve-failed mark of the node it stands on. A new, unlisted walk is a violation until it is reviewed. (R2b, engine of C05 R9) a freed local or a copy of it is not used before it is re-assigned.")
 
 ENTRIES = ["main", "EXPRESSparse", "EXPRESSresolve", "print_file", "EXPRESSinit_init"]
 IDENT = {
@@ -569,6 +570,72 @@ def r6_null_initialised(prog, res, reachable, nn, rule="R6.null_initialised_loca
     res.floor(rule, "locals set to the null constant in the front end", n, floor)
 
 
+# Loops that follow the type graph (`t = t->u.type->head`, `t = t->u.type->body->base`): the parser builds these links from names, so an
+# invalid schema can make them cyclic (TYPE a = b; TYPE b = a;  TYPE a = LIST OF a;).  Each such loop is frozen here with the reason
+# why it ends; "mark" entries are re-verified: the loop condition must test the resolve-failed mark of the node it stands on.
+R5C_WALKS = {
+    "TYPE_resolve|u.type.body.base": ("mark", "runs while the types are being resolved; the nodes of a cycle that does not contain the start type have "
+                                              "been resolved (recursively, just before) and carry the resolve-failed mark, which ends the walk"),
+    "TYPEget_ancestor|u.type.head": ("resolved", "generators only: runs after resolution succeeded; a rename cycle is an ERROR (fix 1bdf5cb1) and the back end is not entered"),
+    "TYPEprint_new|u.type.head": ("resolved", "generator only, after successful resolution (see TYPEget_ancestor)"),
+    "TYPEget_nonaggregate_base_type|u.type.body.base": ("resolved", "called by the generators and by exppp after successful resolution; an aggregate cycle is an ERROR (fix c68ca63c)"),
+}
+R5C_FIELDS = ("u.type.head", "u.type.body.base")
+
+
+def r5c_graph_walks(prog, res):
+    """see R5C_WALKS"""
+    n = 0
+    seen = set()
+    for f in prog.all_functions():
+        if f.component == "test":
+            continue
+        for lp in f.walk():
+            if lp["k"] not in ("While", "For", "Do"):
+                continue
+            body = lp["ch"][-1] if lp["k"] != "Do" else lp["ch"][0]
+            parts = [body] + ([lp["ch"][2]] if lp["k"] == "For" and lp["ch"][2] is not None else [])
+            cond = lp["ch"][0] if lp["k"] == "While" else lp["ch"][1]
+            for part in parts:
+                for a in walk(part) if part is not None else []:
+                    if a["k"] != "Assign" or a.get("op", "=") != "=":
+                        continue
+                    l, r = strip(a["ch"][0]), strip(a["ch"][1])
+                    while r is not None and r["k"] == "Cast" and r.get("ch"):
+                        r = strip(r["ch"][0])
+                    if l is None or l["k"] != "Ref" or r is None or r["k"] != "Member":
+                        continue
+                    ap = access_path(r)
+                    if not ap or ap.split(".")[0] != l.get("d"):
+                        continue
+                    fields = ".".join(ap.split(".")[1:])
+                    if fields not in R5C_FIELDS:
+                        continue
+                    key = "%s|%s" % (f.name, fields)
+                    if (key, f.relfile(), lp["l"]) in seen:
+                        continue
+                    seen.add((key, f.relfile(), lp["l"]))
+                    n += 1
+                    ent = R5C_WALKS.get(key)
+                    if ent is None:
+                        res.add("R5c.graph_walk_terminates", "R5c|%s|%s" % (f.relfile(), key), f.where(lp), False,
+                                "`%s = %s->%s` in a loop follows links that an invalid schema can make cyclic, and the loop is not in the table of "
+                                "reviewed walks (scv/rules/c06.py R5C_WALKS): say why it ends" % (l["n"], l["n"], fields.replace(".", "->")))
+                        continue
+                    kind, why = ent
+                    ok = True
+                    if kind == "mark":
+                        # the condition tests the resolve-failed mark of the node the walk stands on
+                        ok = cond is not None and any(y["k"] == "Member" and y.get("n") == "resolved" and
+                                                      (access_path(y) or "").split(".")[0] == l.get("d") for y in walk(cond))
+                    res.add("R5c.graph_walk_terminates", "R5c|%s|%s" % (f.relfile(), key), f.where(lp), ok,
+                            "reviewed walk over %s: %s" % (fields, why) if ok else
+                            "the walk `%s = %s->%s` no longer tests the resolve-failed mark of the node it stands on: a chain that runs into a cycle "
+                            "the start type is not part of (a = LIST OF b; b = SET OF c; c = BAG OF b) is followed for ever"
+                            % (l["n"], l["n"], fields.replace(".", "->")), assume=None if kind == "mark" else why)
+    res.floor("R5c.graph_walk_terminates", "loops that follow head / base links of the type graph", n, 4)
+
+
 def selftest(res):
     import selftest as st
     import report
@@ -589,8 +656,12 @@ def run(prog, res, tier):
     res.floor("E2.bounded_write", "library writers into fixed arrays", ns.get("lib", 0), 100)
     r1_cursors(prog, res)
     r2_escape_then_free(prog, res, f_floor=True)
+    # a freed local (or a copy of it) is not used again before it is re-assigned (engine of C05 R9)
+    from rules import c05 as _c05
+    _c05.r9_no_use_after_delete(prog, res, components=("express", "exppp", "exp2cxx", "exp2python"), rule="R2b.no_use_after_free", floor=10)
     r5_recursion_marks(prog, res)
     r5b_stamp_stable(prog, res)
+    r5c_graph_walks(prog, res)
     nn = Nullness(prog)
     r6_nullable_elements(prog, res, reachable, nn)
     r6_lookup_results(prog, res, reachable, nn)
